@@ -176,15 +176,56 @@ def build(n):
 
 
 
-def relayout(a, tag=0):
-    """same values in Fortran (column-major) memory order for every other call: the algebra must not depend on the
-    memory layout of the arrays that flow between the operators (flattening is row-major by definition)"""
+LAYOUTS = ("C", "F", "strided", "perm", "neg", "offset")
+
+
+def with_layout(a, layout):
+    """the same logical array (same shape, dtype, values) held in another memory layout; all results are writable:
+      C        row-major, contiguous
+      F        column-major (Fortran), contiguous
+      strided  every other entry of a buffer twice as long along every axis (contiguous in neither order)
+      perm     a transposed view of a buffer whose axes are rotated (neither C nor F for rank >= 3, F for rank 2)
+      neg      negative strides along every axis (a reversed view of the reversed data)
+      offset   the interior window of a larger row-major buffer (non-zero offset, rows not adjacent)
+    The statement speaks of the matrix acting on the (row-major) flattened vector: it quantifies over all inputs,
+    and an input is its values, not the strides numpy happens to store them with."""
     a = np.asarray(a)
+    if a.ndim == 0 or layout == "C":
+        return np.ascontiguousarray(a)
+    if layout == "F":
+        return np.asfortranarray(a)
+    if layout == "strided":
+        buf = np.zeros([2 * s for s in a.shape], dtype=a.dtype)
+        v = buf[tuple(slice(None, None, 2) for _ in a.shape)]
+    elif layout == "perm":
+        p = list(range(1, a.ndim)) + [0]
+        buf = np.zeros([a.shape[i] for i in p], dtype=a.dtype)
+        v = buf.transpose([p.index(i) for i in range(a.ndim)])
+    elif layout == "neg":
+        buf = np.zeros(a.shape, dtype=a.dtype)
+        v = buf[tuple(slice(None, None, -1) for _ in a.shape)]
+    elif layout == "offset":
+        buf = np.zeros([s + 2 for s in a.shape], dtype=a.dtype)
+        v = buf[tuple(slice(1, -1) for _ in a.shape)]
+    else:
+        raise ValueError("layout %r" % (layout,))
+    assert v.shape == a.shape
+    v[...] = a
+    return v
+
+
+def relayout(a, tag=0, layout=None):
+    """layout=None: same values in Fortran (column-major) memory order for every other call: the algebra must not depend on
+    the memory layout of the arrays that flow between the operators (flattening is row-major by definition);
+    otherwise the named layout of `with_layout`"""
+    a = np.asarray(a)
+    if layout is not None:
+        return with_layout(a, layout)
     if a.ndim >= 2 and (int(tag) + a.size) % 2 == 0:
         return np.asfortranarray(a)
     return a
 
-def dense_of(A, dtype=complex):
+def dense_of(A, dtype=complex, layout=None):
     """dense matrix of a real operator through basis vectors (exact: entries are small dyadic rationals)"""
     ish, osh = [int(s) for s in A.ishape], [int(s) for s in A.oshape]
     ni, no = int(np.prod(ish)), int(np.prod(osh))
@@ -192,7 +233,7 @@ def dense_of(A, dtype=complex):
     for j in range(ni):
         e = np.zeros(ni, dtype=dtype)
         e[j] = 1
-        y = A(relayout(e.reshape(ish), j))
+        y = A(relayout(e.reshape(ish), j, layout))
         if tuple(y.shape) != tuple(osh):
             raise ShapeError("A(x).shape=%s but A.oshape=%s" % (tuple(y.shape), osh))
         D[:, j] = np.asarray(y).ravel()
@@ -271,14 +312,14 @@ def parse_reply(r):
     return ("ok", osh, ish, (ilist(sh), [] if data == "-" else [parse_c(v) for v in data.split(",")]))
 
 
-def run_impl(tree, xshape, x):
+def run_impl(tree, xshape, x, layout=None):
     try:
         A = build(tree)
     except Exception as e:  # noqa
         return "err build"
     osh, ish = [int(s) for s in A.oshape], [int(s) for s in A.ishape]
     try:
-        y = A(relayout(np.array(x).reshape(xshape), len(x)))
+        y = A(relayout(np.array(x).reshape(xshape), len(x), layout))
     except Exception as e:  # noqa
         return ("ok", osh, ish, "apply-error")
     return ("ok", osh, ish, canon_arr(y))
@@ -464,6 +505,131 @@ def gen_input(rng, shape, cplx):
     if cplx:
         return np.array([complex(rng.randint(-4, 4), rng.randint(-4, 4)) for _ in range(n)]).reshape(shape)
     return np.array([float(rng.randint(-4, 4)) for _ in range(n)]).reshape(shape)
+
+
+# ---- memory layouts: trees whose parts hand back their input object, a VIEW of it (Identity, Transpose, Flip), or an
+#      array in their input's memory order (scalar multiples, sums, Multiply), under stacks of every axis incl. None -----
+VIEW_SHAPES = [[2, 2], [2, 3], [3, 2], [2, 4], [4, 2], [3, 3], [2, 2, 2], [2, 3, 2], [2, 1, 3], [3, 1, 2], [1, 2, 3],
+               [2, 2, 3], [3], [4], [6], [1, 4]]
+
+
+def transpose_leaf(rng, osh, ish):
+    """Transpose with a random permutation p such that osh[i] = ish[p[i]] (None if osh is not a permutation of ish)"""
+    if len(osh) != len(ish) or sorted(osh) != sorted(ish):
+        return None
+    pool, p = list(range(len(ish))), []
+    for o in osh:
+        j = rng.choice([j for j in pool if ish[j] == o])
+        pool.remove(j)
+        p.append(j)
+    if rng.random() < 0.3:
+        p = [j - len(ish) if rng.random() < 0.5 else j for j in p]     # negative axes name the same permutation
+    return dict(t="leaf", k="transpose", osh=list(osh), ish=list(ish), axes=p)
+
+
+def permuted(rng, s):
+    s = list(s)
+    rng.shuffle(s)
+    return s
+
+
+def gen_viewy(rng, osh, ish, cplx, depth=2):
+    """an operator osh <- ish built preferably from parts that return their input object, a view of it, or an array in
+    its memory order; falls back to the general generator when the shapes leave no such choice"""
+    osh, ish = list(osh), list(ish)
+    opts = []
+    if osh == ish:
+        opts += ["identity"] * 3 + ["flip", "multiply", "circshift"]
+        if depth > 0:
+            opts += ["unit", "unit", "neg", "scale", "sum"]
+    if len(osh) >= 2 and sorted(osh) == sorted(ish):
+        opts += ["transpose"] * 4
+    if len(osh) >= 2 and depth > 0:
+        opts += ["transpose-outer"] * 3
+    if prod(osh) == prod(ish) and osh != ish:
+        opts += ["reshape"]
+    if not opts or rng.random() < 0.1:
+        return gen(rng, osh, ish, max(0, min(depth, 1)), cplx)
+    k = rng.choice(opts)
+    d = depth - 1
+    if k == "transpose":
+        return transpose_leaf(rng, osh, ish)
+    if k == "transpose-outer":      # a permuted view as the OUTERMOST factor of the part
+        mid = permuted(rng, osh)
+        return dict(t="compose", args=[transpose_leaf(rng, osh, mid), gen_viewy(rng, mid, ish, cplx, d)], ctor=rng.random() < 0.3)
+    if k == "unit":                 # 1 * A, A * 1: the scalar's python type is the caller's choice
+        py = rng.choice(["int", "float", "npfloat"] + (["complex"] if cplx else []))
+        return dict(t=rng.choice(["ml", "mr"]), args=[gen_viewy(rng, osh, ish, cplx, d)], s=[1.0, 0.0], py=py)
+    if k == "neg":
+        return dict(t="neg", args=[gen_viewy(rng, osh, ish, cplx, d)])
+    if k == "scale":
+        return dict(t=rng.choice(["ml", "mr"]), args=[gen_viewy(rng, osh, ish, cplx, d)], **rscalar(rng, cplx))
+    if k == "sum":
+        return dict(t=rng.choice(["add", "sub"]), args=[gen_viewy(rng, osh, ish, cplx, d) for _ in range(2)])
+    base = dict(t="leaf", k=k, osh=osh, ish=ish)
+    if k == "multiply":
+        base["data"] = rdata(rng, prod(ish), cplx)
+    elif k == "flip":
+        base["axes"] = sorted(set(rng.randrange(len(ish)) for _ in range(rng.randint(1, len(ish)))))
+    elif k == "circshift":
+        base["shift"] = [rng.randint(-2, 2) for _ in ish]
+    return base
+
+
+def gen_layout_tree(rng):
+    """(tree, cplx): a stack (Vstack most often; every axis in [-ndim, ndim) and None) / sum of such parts, sometimes fed by
+    or feeding another such part, so that non-C-contiguous arrays reach the stack from outside AND from its blocks"""
+    cplx = rng.random() < 0.4
+    k = rng.choice([1, 2, 2, 2, 3])
+    t = rng.choice(["vstack"] * 5 + ["diag"] * 3 + ["hstack"] * 2 + ["add"])
+    base = list(rng.choice(VIEW_SHAPES))
+    nd = len(base)
+
+    def along(axis):
+        """k shapes that agree with `base` off `axis`"""
+        out = []
+        for _ in range(k):
+            s = list(base)
+            if rng.random() < 0.5:
+                s[axis] = rng.choice([1, 2, 3])
+            out.append(s)
+        return out
+
+    def free():
+        """k shapes for flattened stacking: permutations of `base` most often"""
+        return [permuted(rng, base) if rng.random() < 0.7 else list(rng.choice(VIEW_SHAPES)) for _ in range(k)]
+
+    def axis_or_none():
+        return None if rng.random() < 0.6 else rng.randrange(-nd, nd)
+    V = lambda o, i: gen_viewy(rng, o, i, cplx, rng.choice([0, 1, 1, 2]))
+    if t == "add":
+        o = permuted(rng, base)
+        tree = dict(t="add", args=[V(o, base) for _ in range(max(k, 2))], ctor=True)
+    elif t == "vstack":
+        ax = axis_or_none()
+        oshs = free() if ax is None else along(ax)
+        tree = dict(t="vstack", axis=ax, args=[V(o, base) for o in oshs])
+    elif t == "hstack":
+        ax = axis_or_none()
+        ishs = free() if ax is None else along(ax)
+        o = permuted(rng, base)
+        tree = dict(t="hstack", axis=ax, args=[V(o, i) for i in ishs])
+    else:
+        oax, iax = axis_or_none(), axis_or_none()
+        ishs = free() if iax is None else along(iax)
+        if oax is None:
+            oshs = [permuted(rng, i) if rng.random() < 0.7 else list(rng.choice(VIEW_SHAPES)) for i in ishs]
+        else:
+            oshs = along(oax)
+        tree = dict(t="diag", oaxis=oax, iaxis=iax, args=[V(o, i) for o, i in zip(oshs, ishs)])
+    osh, ish, _ = expected(tree)
+    r = rng.random()
+    if r < 0.25:        # the stack's input is what another part hands back
+        inner = permuted(rng, ish)
+        tree = dict(t="compose", args=[tree, V(ish, inner)], ctor=rng.random() < 0.3)
+    elif r < 0.4:       # the stack's output flows on
+        tree = dict(t="compose", args=[V(permuted(rng, osh), osh), tree], ctor=rng.random() < 0.3)
+    return tree, cplx
 
 
 # ---- off-rank inputs: chains of Identity / Reshape / scalars, inputs whose rank differs from ishape ----------
@@ -718,9 +884,10 @@ def feature(n):
     return "axis"
 
 
-def check_tree(n, x=None, dtype=None):
+def check_tree(n, x=None, dtype=None, layout=None):
     """None if the real operator of this tree satisfies the statement, else (kind, observed, expected).
-    x: optional extra input (flat list of complex) checked against D @ x."""
+    x: optional extra input (flat list of complex) checked against D @ x.
+    layout: memory layout (`with_layout`) of every array handed to the operator; None = C and F alternating."""
     try:
         osh, ish, D = expected(n)
     except Exception as e:  # a leaf of the real code misbehaves: not this property's business
@@ -734,7 +901,7 @@ def check_tree(n, x=None, dtype=None):
         return ("advertised-shape", "oshape=%s ishape=%s" % got, "oshape=%s ishape=%s" % (osh, ish))
     dt = dtype or (complex if (np.any(D.imag != 0) or treecplx(n)) else float)
     try:
-        Dg = dense_of(A, dtype=dt)
+        Dg = dense_of(A, dtype=dt, layout=layout)
     except ShapeError as e:
         return ("output-shape", str(e), "A(x).shape == A.oshape")
     except Exception as e:
@@ -746,7 +913,7 @@ def check_tree(n, x=None, dtype=None):
     if x is not None:
         xv = np.array(x, dtype=dt if dtype else complex)
         try:
-            y = A(relayout(xv.reshape(ish), 0))
+            y = A(relayout(xv.reshape(ish), 0, layout))
         except Exception as e:
             return ("apply-raises", "%r <- %r" % (e, e.__cause__), "A(x)")
         if tuple(y.shape) != tuple(osh):
@@ -774,12 +941,17 @@ def short_mat(D):
     return s if len(s) < 700 else s[:700] + "…"
 
 
-def diagnose(tree, x=None):
-    """smallest failing subtree (post-order: children before parents) -> (key, subtree, kind, observed, expected)"""
+def diagnose(tree, x=None, layout=None):
+    """smallest failing subtree (post-order: children before parents) -> (key, subtree, kind, observed, expected).
+    With a named layout the key says whether the subtree fails only for inputs held in that memory layout."""
     for n in nodes(tree):
-        r = check_tree(n, x if n is tree else None)
+        xn = x if n is tree else None
+        r = check_tree(n, xn, layout=layout)
         if r is not None and r[0] != "leaf":
-            return ("C03:%s:%s" % (CLS[n["t"]], feature(n)), n, r[0], r[1], r[2])
+            key = "C03:%s:%s" % (CLS[n["t"]], feature(n))
+            if layout not in (None, "C") and check_tree(n, xn, layout="C") is None:
+                key += ":input-memory-layout"
+            return (key, n, r[0], r[1], r[2])
     return None
 
 
@@ -838,14 +1010,17 @@ def offrank_verdict(tree, xshape, x):
         return None
 
 
-def report(ctx, tree, x, origin):
-    d = diagnose(tree, x)
+def report(ctx, tree, x, origin, layout=None):
+    d = diagnose(tree, x, layout)
     if d is None:
         return True
     key, sub, kind, obs, exp = d
-    ctx.fail(key, "%s %s: %s" % (CLS[sub["t"]], feature(sub), kind),
-             dict(kind="tree", tree=sub, x=None if (sub is not tree or x is None) else [[complex(z).real, complex(z).imag] for z in x]),
-             observed=obs, expected=exp, origin=origin)
+    case = dict(kind="tree", tree=sub, x=None if (sub is not tree or x is None) else [[complex(z).real, complex(z).imag] for z in x])
+    what = "%s %s: %s" % (CLS[sub["t"]], feature(sub), kind)
+    if layout is not None:
+        case["layout"] = layout
+        what += " (arrays handed to the operator in memory layout %r)" % layout
+    ctx.fail(key, what, case, observed=obs, expected=exp, origin=origin)
     return False
 
 
@@ -861,7 +1036,10 @@ def correspond(ctx):
                 "chains of Identity / Reshape / scalar operators whose _apply the model transcribes for every input shape "
                 "(exercises the exact zip guards of Linop.apply: accepted / rejected / returned array), "
                 "_hstack_params/_vstack_params directly (real function vs model vs the translator-generated loops, incl. "
-                "out-of-range axes), Linop._check_ishape/_check_oshape directly (incl. -1 wildcards) vs generated guards")
+                "out-of-range axes), Linop._check_ishape/_check_oshape directly (incl. -1 wildcards) vs generated guards; "
+                "memory layouts (stream layout): stacks of every axis incl. None over parts that return their input object / a "
+                "view of it / an array in its memory order, the input handed to sigpy as C, Fortran, strided, offset, "
+                "negative-stride and axis-permuted arrays of the same values (the model has values only)")
     ctx.assumptions += [
         "the driver runs the TRANSLATOR-GENERATED bodies of Linop.apply / Compose / Add / Hstack / Vstack / Diag._apply and the "
         "generated constructor guards (Gen/LinopApply.lean, Model/C03Gen.lean); hand-written and validated by this correspondence: "
@@ -929,6 +1107,22 @@ def correspond(ctx):
         ctx.count("offrank-stack:%s:%s" % (tree["t"], "shorter" if len(xs) < len(ish) else "longer" if len(xs) > len(ish) else "same-rank"))
     bad, keys, unexplained = _run_stream(ctx, "off-rank-stack", cases, exact=True)
     _oblige(ctx, "off-rank-stack", bad, keys, unexplained)
+    # -- stream 3d: memory layouts. The model's arrays are values (row-major by definition); sigpy receives the same values
+    #    C-ordered, Fortran-ordered, as strided / offset / negative-stride / axis-permuted views, through trees whose parts
+    #    return their input object, views of it, or arrays in its memory order
+    cases, lays = [], []
+    for i in range(n // 2):
+        tree, cplx = gen_layout_tree(rng)
+        osh, ish, _ = expected(tree)
+        for lay in rng.sample(LAYOUTS, 2):
+            cases.append((tree, ish, gen_input(rng, ish, True if (cplx or treecplx(tree)) else rng.random() < 0.3)))
+            lays.append(lay)
+            ctx.count("layout:%s:%s" % (lay, "rank%d" % len(ish)))
+        for m in nodes(tree):
+            if m["t"] == "leaf" and m["k"] in ("identity", "transpose", "flip"):
+                ctx.count("layout:part-returns-%s" % ("input-object" if m["k"] == "identity" else "view"))
+    bad, keys, unexplained = _run_stream(ctx, "layout", cases, layouts=lays)
+    _oblige(ctx, "layout", bad, keys, unexplained)
     # -- stream 4: the params functions directly
     _params_stream(ctx, n)
     # -- stream 5: the guard functions directly
@@ -945,15 +1139,17 @@ def _oblige(ctx, stream, bad, keys, unexplained):
     ctx.oblige("correspondence:C03." + stream, "correspondence", bad == 0, detail)
 
 
-def _run_stream(ctx, stream, cases, misfit=False, exact=False):
+def _run_stream(ctx, stream, cases, misfit=False, exact=False, layouts=None):
     lines = [line(t, xs, x, exact) for t, xs, x in cases]
     replies = ctx.driver(lines)
     bad, keys, unexplained = 0, set(), 0
-    for (tree, xs, x), ln, r in zip(cases, lines, replies):
+    for j, ((tree, xs, x), ln, r) in enumerate(zip(cases, lines, replies)):
         model = parse_reply(r)
-        impl = run_impl(tree, xs, x)
+        lay = layouts[j] if layouts is not None else None
+        impl = run_impl(tree, xs, x, lay)
         nontriv = tree["t"] != "leaf"
-        ctx.case(ln, nontrivial=nontriv, sample=dict(line=ln[:300], reply=r[:160]) if ctx.evaluations % 61 == 0 else None)
+        ctx.case(ln if lay is None else (ln, lay), nontrivial=nontriv,
+                 sample=dict(line=ln[:300], reply=r[:160], **({} if lay is None else {"layout": lay})) if ctx.evaluations % 61 == 0 else None)
         ctx.count("root:" + tree["t"])
         for m in nodes(tree):
             if m["t"] in STACKS:
@@ -961,12 +1157,14 @@ def _run_stream(ctx, stream, cases, misfit=False, exact=False):
         if impl != model:
             bad += 1
             case = dict(kind="misfit" if misfit else "tree", tree=tree, xshape=list(xs), x=[[z.real, z.imag] for z in np.asarray(x, dtype=complex).ravel()])
+            if lay is not None:
+                case["layout"] = lay
             ctx.disagree(stream, case, impl, model)
             d = None
             if exact:
                 d = offrank_verdict(tree, xs, x)
             elif not misfit:
-                d = diagnose(tree, [complex(z) for z in np.asarray(x).ravel()] if list(xs) == expected_ishape(tree) else None)
+                d = diagnose(tree, [complex(z) for z in np.asarray(x).ravel()] if list(xs) == expected_ishape(tree) else None, lay)
             elif misfit:
                 d = misfit_verdict(tree)
             if d is None:
@@ -1144,7 +1342,7 @@ def search(ctx, budget):
                 ctx.fail(r[0], "an input whose shape does not fit was accepted", c, r[1], r[2], "disagreement")
         elif c.get("kind") == "tree":
             report(ctx, c["tree"], [complex(*z) for z in c["x"]] if c["xshape"] == expected_ishape(c["tree"]) else None,
-                   "disagreement")
+                   "disagreement", c.get("layout"))
         elif c.get("kind") == "misfit":
             r = misfit_verdict(c["tree"])
             if r is not None:
@@ -1196,6 +1394,18 @@ def search(ctx, budget):
         tree, cplx = gen_tree(rng, depth=rng.choice([1, 2]))
         ctx.case(("oracle-dtype", json.dumps(tree, sort_keys=True)), nontrivial=False)
         dtype_probe(ctx, tree, rng, "search-dtype")
+    # 5. memory layouts: the dense matrix measured with every array handed over in each layout must be the matrix
+    #    expression of the parts (the statement's flattening is row-major whatever the strides are)
+    for i in range(n // 3):
+        tree, cplx = gen_layout_tree(rng)
+        ish = expected(tree)[1]
+        x = [complex(z) for z in gen_input(rng, ish, True).ravel()]
+        ctx.case(("oracle-layout", json.dumps(tree, sort_keys=True)), nontrivial=True)
+        if not report(ctx, tree, x, "search-layout"):
+            continue
+        for lay in LAYOUTS:
+            if check_tree(tree, x, layout=lay) is not None and not report(ctx, tree, x, "search-layout", lay):
+                break
 
 
 def params_tree(c):
@@ -1261,7 +1471,7 @@ def replay(path):
             r = bad_input_verdict(c["tree"], c["xshape"], x)
             res = None if r is None else r[1:]
         else:
-            d = diagnose(c["tree"], x)
+            d = diagnose(c["tree"], x, c.get("layout"))
             res = None if d is None else d[2:]
     ok = res is None
     if not ok:
